@@ -32,6 +32,12 @@ def canonical(cfgname, configs, close=True):
                 tr = sim.canonical(honest_policy(close=close, order=LAZY_ORDER))
             else:
                 tr = sim.canonical(honest_policy(close=close))
+            # vacuity guard: an honest two-party run with matching codes must actually get somewhere (both sides past key agreement),
+            # otherwise the checkpoints would all sit in the first few protocol steps
+            if len(sim.cl) == 2 and not sim.wrong_code and not cfg.get("welcome_error") and cfg.get("appids", ("a", "a"))[0] == cfg.get("appids", ("a", "a"))[1]:
+                stuck = [c.name for c in sim.cl if c.state("B") in ("S0_empty", "S1_lonely")]
+                if stuck:
+                    raise AssertionError("canonical run of config %r stalled before key agreement on side(s) %r after %d steps" % (cfgname, stuck, len(tr)))
         finally:
             sim.close_world()
         _canon_cache[key] = tr
